@@ -561,7 +561,11 @@ struct Extractor : RecursiveASTVisitor<Extractor> {
 		if(!fd->doesThisDeclarationHaveABody()) return;
 		if(fd->isDependentContext()) return;
 		if(fd->isDeleted() || fd->isDefaulted()) return;
-		if(!underRoot(fd->getLocation())) return;
+		// functions of the library under analysis, plus explicit probes of the witness unit (wit::probe_*): bodies whose
+		// resolved callees are themselves the evidence (overload-resolution witnesses)
+		if(!underRoot(fd->getLocation())
+				&& !(sm.isInMainFile(sm.getExpansionLoc(fd->getLocation())) && fd->getQualifiedNameAsString().rfind("wit::probe_", 0) == 0))
+			return;
 		if(!doneFns.insert(fd->getCanonicalDecl()).second) return;
 		const Stmt *body = fd->getBody();
 		if(!body) return;
@@ -636,6 +640,23 @@ struct Extractor : RecursiveASTVisitor<Extractor> {
 			J.attribute("t", typeStr(p->getType()));
 			auto rt = recordUq(p->getType());
 			if(!rt.empty()) J.attribute("rt", rt);
+			// Declared in the template pattern as `X &&` with X a template type parameter (a forwarding /
+			// reference-collapsing parameter)?  Instantiated parameters keep the pattern parameter's location.
+			if(const FunctionDecl *pat = fd->getTemplateInstantiationPattern()) {
+				// (an out-of-line definition is the pattern of the body, the in-class declaration the pattern of the
+				// parameters: look at every redeclaration)
+				for(auto *rd : pat->redecls())
+				for(auto *pp : rd->parameters()) {
+					if(pp->getLocation() != p->getLocation()) continue;
+					QualType pt = pp->getType();
+					if(auto *pe = pt->getAs<PackExpansionType>()) pt = pe->getPattern();
+					if(auto *rr = pt->getAs<RValueReferenceType>()) {
+						QualType inner = rr->getPointeeType();
+						if(!inner.hasQualifiers() && inner->getAs<TemplateTypeParmType>())
+							J.attribute("collapsing", true);
+					}
+				}
+			}
 			J.objectEnd();
 		}
 		J.arrayEnd();
